@@ -176,3 +176,22 @@ def blind_guess_tree(rng):
     if rng.random() < 0.4:
         t = {"c": None, "o": [[f2b(rng.uniform(0.5, 2.0)), t], [f2b(rng.uniform(0.5, 2.0)), {"t": f2b(rng.uniform(-1, 1))}]]}
     return t, tree_stats(t)
+
+
+def hidden_deal_tree(rng, outcomes=12, depth=6, actions=3):
+    """an unobserved deal followed by `depth` alternating moves with `actions` actions each, no player observing
+    anything but the own moves: every infoset is shared by all deals, so different workers of the multi-threaded
+    solvers update the same cells at the same time (contention on the atomic regret cells and the strategy mutex)"""
+    def go(d, pl, h, deal):
+        if d == 0:
+            return {"t": f2b(rng.uniform(-5, 5))}
+        info = 1000 * pl + hash((pl, h[pl - 1])) % 100003
+        kids = []
+        for a in range(actions):
+            nh = list(h)
+            nh[pl - 1] = h[pl - 1] + (a,)
+            kids.append([a + 1, go(d - 1, 3 - pl, tuple(nh), deal)])
+        return {"p": pl, "i": names.setdefault((pl, h[pl - 1]), len(names) + 1), "a": kids}
+    names = {}
+    t = {"c": None, "o": [[f2b(rng.uniform(0.5, 2.0)), go(depth, 1, ((), ()), k)] for k in range(outcomes)]}
+    return t, tree_stats(t)
